@@ -31,9 +31,18 @@ ScanOk(r) ==
       exp == IF r.p = 0 THEN <<ScanStop(c, SeqOf(r, 0)), ScanStop(c, SeqOf(r, 0))>>
              ELSE <<ScanStop(c, SeqOf(r, InRep)), ScanStop(c, SeqOf(r, OutRep))>>
   IN RunsOk(r.runs, 1, 0, c, exp)
+\* word-level events: every prefix `pre` over a boundary-value alphabet, followed by each of
+\* the 256 byte values - the block arithmetic with every kind of neighbour (a wrapping
+\* subtraction / addition on the whole word lets neighbouring lanes influence each other)
+\*   {"ev":"scanw", backend, cls, pre, runs}
+WordOk(r) ==
+  LET c == ClsName(r.cls)
+      exp == <<ScanStop(c, Append(r.pre, InRep)), ScanStop(c, Append(r.pre, OutRep))>>
+  IN RunsOk(r.runs, 1, 0, c, exp)
 TInit == l = 1
 TScan == l <= Len(Rec) /\ Rec[l].ev = "scan" /\ ScanOk(Rec[l]) /\ l' = l + 1
-TSpec == TInit /\ [][TScan]_l
+TWord == l <= Len(Rec) /\ Rec[l].ev = "scanw" /\ WordOk(Rec[l]) /\ l' = l + 1
+TSpec == TInit /\ [][TScan \/ TWord]_l
 Accepted ==
   IF TLCGet("stats").diameter - 1 = Len(Rec) THEN TRUE
   ELSE PrintT(<<"REJECT", TLCGet("stats").diameter, Len(Rec)>>) /\ FALSE
